@@ -126,7 +126,20 @@ pub fn gen_c08(seed: u64, thorough: bool) {
         let parsed: Vec<jlabel::Label> = labels.iter().map(|l| l.parse().unwrap()).collect();
         let ps = Models::new(&parsed, &engine.voices, engine.condition.get_interporation_weight()).duration();
         let f1: usize = DurationEstimator::new(ps.clone(), 1).create(1.0).iter().sum();
-        let s = if i % 5 == 0 { *rng.pick(&[0.5, 2.0, 1.0]) } else { pick_speed(&mut rng, f1) };
+        // every seventh case: a pause-only utterance (about 16 frames per state at speed 1) at a speed between 10 and 15, where the
+        // total is still above one frame per state — the law has no upper speed limit (seeded change C08j: the engine's setter
+        // capped the speed at 10)
+        let pause_case = i % 7 == 3;
+        let (labels, parsed, ps, f1) = if pause_case {
+            let sil: Vec<&String> = corpus.iter().filter(|l| l.contains("-sil+") || l.contains("-pau+")).collect();
+            let labels: Vec<String> = (0..rng.range(1, 2)).map(|_| sil[rng.below(sil.len())].clone()).collect();
+            let parsed: Vec<jlabel::Label> = labels.iter().map(|l| l.parse().unwrap()).collect();
+            let ps = Models::new(&parsed, &engine.voices, engine.condition.get_interporation_weight()).duration();
+            let f1: usize = DurationEstimator::new(ps.clone(), 1).create(1.0).iter().sum();
+            (labels, parsed, ps, f1)
+        } else { (labels, parsed, ps, f1) };
+        let _ = &parsed;
+        let s = if pause_case { rng.uniform(10.0, 15.0) } else if i % 5 == 0 { *rng.pick(&[0.5, 2.0, 1.0]) } else { pick_speed(&mut rng, f1) };
         let fp = *rng.pick(&[240usize, 240, 120, 360, 80, 1, 7, 441]);
         let rate = *rng.pick(&[48000usize, 48000, 44100, 16000, 22050, 96000]);
         engine.condition.set_sampling_frequency(rate);
@@ -134,7 +147,8 @@ pub fn gen_c08(seed: u64, thorough: bool) {
         engine.condition.set_speed(s);
         engine.condition.set_volume(*rng.pick(&[0.0, -10.0]));
         let fp_eff = engine.condition.get_fperiod();
-        let s_eff = engine.condition.get_speed();
+        // the speed the caller asked for, limited from below as documented (>= 1e-6) — not what the getter returns
+        let s_eff = s.max(1e-6);
         // calls that do not concern the speed (each sets another setting and puts it back, or toggles the alignment flag
         // twice) between setting the speed and synthesizing: the utterance must still have the length for `s_eff`
         let snap = crate::engine::cond_snapshot(&engine);
